@@ -293,6 +293,56 @@ fn history_check(c: &Case, x: usize, imp: &str) -> String {
     }
 }
 
+/// History variant for accepted sets: a REJECTED batch that names a resident template twice (first
+/// occurrence closing an include cycle or dangling, second occurrence valid) next to an item that
+/// makes the batch fail; afterwards the resident set must be what it was, so a further valid add
+/// must be answered exactly as by a fresh instance given (set + that template) in one batch.
+/// "na" | "same" | "diff <description>"
+fn dup_batch_check(c: &Case, imp: &str) -> String {
+    if !imp.starts_with("ok") || c.tpls.is_empty() {
+        return "na".into();
+    }
+    let r = catch(std::panic::AssertUnwindSafe(|| {
+        let mut out = "same".to_string();
+        for variant in 0..2 {
+            let mut tera = engine(&c.prefixes);
+            if add_all(&mut tera, &c.tpls).is_err() {
+                return "na".to_string();
+            }
+            let n = &c.tpls[c.tpls.len() / 2];
+            let mut first = n.clone();
+            first.tag = "d1".into();
+            if variant == 0 {
+                first.top_includes.push(n.name.clone());
+            } else {
+                first.parent = Some("nowhere_dup".into());
+            }
+            let mut second = n.clone();
+            second.tag = "d2".into();
+            let mut bad = TplS::new("zz_bad");
+            bad.parent = Some("nowhere_at_all".into());
+            let batch = vec![first, second, bad];
+            if tera.add_raw_templates(batch.iter().map(|t| (t.name.clone(), t.source())).collect::<Vec<_>>()).is_ok() {
+                return "diff the batch with a dangling parent was accepted".to_string();
+            }
+            let ok_tpl = TplS::new("zz_ok");
+            let a2 = match tera.add_raw_template(&ok_tpl.name, &ok_tpl.source()) {
+                Ok(()) => format!("ok {}", real_derived(&tera).canon()),
+                Err(e) => canon_err(&e),
+            };
+            let mut with = c.clone();
+            with.tpls.push(ok_tpl);
+            let (e2, _) = register(&with);
+            if !same_answer(&a2, &e2) {
+                out = format!("diff after a rejected batch naming `{}` twice ({}), adding the plain template `zz_ok` answers `{}` but a fresh instance given the same set answers `{}`", n.name, if variant == 0 { "first occurrence self-including" } else { "first occurrence with a dangling parent" }, a2.chars().take(120).collect::<String>(), e2.chars().take(120).collect::<String>());
+                break;
+            }
+        }
+        out
+    }));
+    r.unwrap_or_else(|p| format!("diff panic {p}"))
+}
+
 /// a ring of `n` templates (include or extends edges i -> i+1 -> … -> 0), entered from a tail of
 /// `tail` further templates
 fn ring_case(extends: bool, n: usize, tail: usize) -> Case {
@@ -470,7 +520,10 @@ fn child_stream(kind: &str, quick: bool, seed: u64, start: u64, stride: u64, hi:
             }
             hist
         };
-        writeln!(w, "{idx}\t{imp}\t{renders}\t{hist}").unwrap();
+        writeln!(w, "at {idx} dup").unwrap();
+        w.flush().unwrap();
+        let dup = dup_batch_check(&c, &imp);
+        writeln!(w, "{idx}\t{imp}\t{renders}\t{hist}\u{2}{dup}").unwrap();
         idx += stride;
     }
     w.flush().unwrap();
@@ -482,6 +535,11 @@ fn child_reg(path: &str, two_step: Option<usize>) {
     let c: Case = serde_json::from_str(&std::fs::read_to_string(path).expect("case file")).expect("case json");
     let progress = std::sync::Arc::new(std::sync::atomic::AtomicU64::new(0));
     start_watchdog(progress, 20);
+    if two_step == Some(usize::MAX) {
+        let (imp, _) = register(&c);
+        println!("{}", dup_batch_check(&c, &imp));
+        return;
+    }
     match two_step {
         None => println!("{}", register(&c).0),
         Some(x) => println!("{}", register_two_step(&c, x).unwrap_or_else(|| "na".into())),
@@ -584,6 +642,14 @@ fn safe_two_step(c: &Case, x: usize) -> Option<String> {
     }
     let o = out.trim().to_string();
     if o == "na" { None } else { Some(o) }
+}
+
+/// `dup_batch_check` in a child process
+fn safe_dup(c: &Case) -> String {
+    let path = write_case(c, "dup");
+    let (status, out) = run_child(&["--child".into(), "dup".into(), path.to_string_lossy().to_string()], Duration::from_secs(40));
+    let _ = std::fs::remove_file(&path);
+    if status == "exit0" { out.trim().to_string() } else { format!("diff died {status}") }
 }
 
 fn safe_history_check(c: &Case, x: usize, imp: &str) -> String {
@@ -951,6 +1017,7 @@ fn main() {
             "render" => child_render(&args[i + 2], &args[i + 3]),
             "reg" => child_reg(&args[i + 2], None),
             "reg2" => child_reg(&args[i + 2], Some(args[i + 3].parse().unwrap())),
+            "dup" => child_reg(&args[i + 2], Some(usize::MAX)),
             _ => {}
         }
         return;
@@ -974,6 +1041,9 @@ fn main() {
             let two = safe_two_step(&c, k);
             println!("with {:?} stripped of its edges in a first batch and re-registered last: {:?}", c.tpls[k].name, two);
             println!("oracle on that answer: {:?}", two.and_then(|r| oracle(&c, &r)));
+        }
+        if j.get("dup_batch").is_some() {
+            println!("rejected batch naming the middle template twice, then a plain add, vs a fresh instance: {}", safe_dup(&c));
         }
         if imp.starts_with("ok") {
             for t in &c.tpls {
@@ -1015,6 +1085,8 @@ fn main() {
     // (index of the set, template replaced last, answer of the replacing call)
     let mut hist_fails: Vec<(Case, usize, String, String)> = Vec::new();
     let mut n_hist_fails = 0u64;
+    let mut dup_fails: Vec<(Case, String)> = Vec::new();
+    let mut n_dup_fails = 0u64;
     let mut distinct: std::collections::HashSet<u64> = std::collections::HashSet::new();
     // (global index, case, implementation, model answer)
     let mut mismatches: Vec<(usize, Case, String, String)> = Vec::new();
@@ -1041,9 +1113,20 @@ fn main() {
             .map(|i| {
                 let (is_exh, (idx, imp, renders, hist)) = &all_rows[i];
                 let c = case_of(&mut rgen, *is_exh, *idx);
+                let (hist, dup) = hist.split_once('\u{2}').unwrap_or((hist.as_str(), "na"));
+                report.count(&format!("history.rejected-batch-with-duplicate-names.{}", dup.split(' ').next().unwrap_or("")));
+                if dup != "na" {
+                    report.oracle_checks += 1;
+                }
+                if let Some(d) = dup.strip_prefix("diff ") {
+                    n_dup_fails += 1;
+                    if dup_fails.len() < 3 {
+                        dup_fails.push((c.clone(), d.to_string()));
+                    }
+                }
                 let (h, x) = match hist.split_once('\u{1}') {
                     Some((h, x)) => (h, x.parse().unwrap_or(0)),
-                    None => (hist.as_str(), if *is_exh { (*idx % p.n as u64) as usize } else { c.tpls.len() / 2 }),
+                    None => (hist, if *is_exh { (*idx % p.n as u64) as usize } else { c.tpls.len() / 2 }),
                 };
                 report.count(&format!("history.replacement-last.{}", h.split(' ').next().unwrap_or("")));
                 if h != "na" {
@@ -1181,7 +1264,19 @@ fn main() {
     }
     report.oracle_failures += n_culprits;
 
-    report.oracle_failures += n_oracle_fails + n_hist_fails;
+    report.oracle_failures += n_oracle_fails + n_hist_fails + n_dup_fails;
+    for (c, d) in dup_fails.iter() {
+        let small = shrink(c.clone(), &|x: &Case| safe_dup(x).starts_with("diff"));
+        let desc = safe_dup(&small);
+        let imp = safe_register(&small);
+        let mut j = replay_json(&small, &imp, serde_json::json!({"original": d}));
+        j["dup_batch"] = serde_json::json!(true);
+        report.violation(
+            "property",
+            format!("the resident set is no longer the accepted one: {}", desc.strip_prefix("diff ").unwrap_or(d)),
+            j,
+        );
+    }
     for (c, x, imp, r2) in hist_fails.iter().take(3) {
         // shrink while the two ways of reaching the set keep answering differently (and keep
         // differing in acceptance itself when they did)
